@@ -403,6 +403,27 @@ fn parse_rows(text: &str, delim: &str) -> Result<Vec<Vec<f64>>, String> {
     Ok(rows)
 }
 
+/// [odd, same x n, same, odd2, same]: see `c05_record_set`
+pub fn odd_then_same(n: usize) -> Vec<Vec<u8>> {
+    let mut v = vec![b"CCCGGGCCCG".to_vec()];
+    v.extend(std::iter::repeat(b"AAAAATTTTT".to_vec()).take(n));
+    v.push(b"GGCCGGCACG".to_vec());
+    v.push(b"AAAAATTTTT".to_vec());
+    v
+}
+
+/// two equal records `gap + 1` apart with identical unrelated records in between, then a record sharing the first
+/// one's tail: distances of 2^8 and 2^16 (one less, one more) are where a per-record stamp or index of that width wraps
+pub fn bookends(gap: usize) -> Vec<Vec<u8>> {
+    let x = b"ACGTTGCAAGCTTAGGC".to_vec();
+    let mut v = vec![x.clone()];
+    v.extend(std::iter::repeat(b"AAAAAAAAAAAAAAAA".to_vec()).take(gap));
+    v.push(x);
+    v.push(b"GGATCCGATGCTTAGGC".to_vec());
+    v.push(b"AAAAAAAAAAAAAAAA".to_vec());
+    v
+}
+
 /// records whose normalised rows hold values just below 1 and just above 0: one odd window in 2.1 million
 pub fn near_one_records() -> Vec<Vec<u8>> {
     let mut a = vec![b'C'];
@@ -592,6 +613,13 @@ pub fn c04(ctx: &mut Ctx) {
     ctx.rep.count("cases.family", n);
     // long records
     let mut sh = ctx.shard;
+    for (i, s) in crate::iters::medium_inputs(ctx.pick(300, 3000)).iter().enumerate() {
+        if sh.mine() && !ctx.monitor() {
+            c04_one(ctx, &sets[i % 8], "medium-random", s, i % 5 == 0);
+            ctx.rep.nontrivial += 1;
+            ctx.rep.count("cases.medium_random", 1);
+        }
+    }
     for (i, &len) in crate::iters::THRESHOLD_LENGTHS.iter().enumerate() {
         let s = crate::iters::long_input(len, 80 + i as u64);
         for k in [1usize, 2, 3, 4] {
@@ -885,6 +913,7 @@ pub fn cgr_record_sets() -> Vec<(&'static str, Vec<Vec<u8>>)> {
         }
         v
     }));
+    sets.push(("odd-then-same-65536", odd_then_same(65_536)));
     sets.push(("single-bases", (0..175_000usize).map(|i| vec![b"ACGTTGCA"[(i * 5 + i / 8) % 8]]).collect()));
     sets.push(("twenty-thousand", (0..20_000usize).map(|i| model::text_of((i * 2654435761usize % 4096) as u128, 6)[..(1 + (i * 7) % 6)].to_vec()).collect()));
     sets.push(("repeating", repeating_records().into_iter().map(|r| r.iter().map(|&b| if b == b'N' { b'A' } else { b }).collect()).collect()));
@@ -1023,6 +1052,13 @@ pub fn c11(ctx: &mut Ctx) {
             c11_long(ctx, c, *sz, &sq);
         }
     }
+    for (i, s) in crate::iters::medium_inputs(ctx.pick(200, 2000)).iter().enumerate() {
+        if sh.mine() {
+            let clean: Vec<u8> = s.iter().map(|&b| if model::class(b).is_none() { b"ACGT"[(b as usize) % 4] } else { b }).collect();
+            let (sz, c) = &comps[i % comps.len()];
+            c11_long(ctx, c, *sz, &clean);
+        }
+    }
     // long records with ONE foreign byte (first, second, middle, last position): refused whatever their length
     {
         let mut nrej = 0u64;
@@ -1090,6 +1126,15 @@ pub fn c11(ctx: &mut Ctx) {
         }
     }
     for (tag, recs) in cgr_record_sets() {
+        if tag == "odd-then-same-65536" {
+            for threads in [1usize, 4] {
+                if sh.mine() {
+                    c11_file(ctx, &recs, 16, threads, 4 << 30, tag);
+                    nf += 1;
+                }
+            }
+            continue;
+        }
         if tag == "twenty-thousand" || tag == "single-bases" {
             continue;
         }
@@ -1359,6 +1404,9 @@ pub fn c12_record_sets() -> Vec<(&'static str, Vec<Vec<u8>>)> {
             lf
         }),
         ("repeating", repeating_records()),
+        ("reads", crate::iters::medium_inputs(200)),
+        ("odd-then-same-256", odd_then_same(256)),
+        ("odd-then-same-65536", odd_then_same(65_536)),
         ("near-one", near_one_records()),
         ("twenty-thousand", (0..20_000usize).map(|i| model::text_of((i * 2654435761usize % 65536) as u128, 8)[..(1 + (i * 5) % 8)].to_vec()).collect()),
         ("fixed-rows", {
@@ -1423,6 +1471,19 @@ pub fn c12(ctx: &mut Ctx) {
     }
     ctx.lap("c12.per_record");
     // long records
+    for (i, s) in crate::iters::medium_inputs(ctx.pick(200, 2000)).iter().enumerate() {
+        if !sh.mine() || ctx.monitor() {
+            continue;
+        }
+        let (k, norm) = (1 + i % 7, i % 2 == 0);
+        let mut comp = OligoCgrComputer::new("-".into(), "-".into(), k, [16usize, 49, 1000][i % 3]);
+        comp.set_norm(norm);
+        let mut oligo = OligoComputer::new("-".into(), "-".into(), k);
+        oligo.set_norm(norm);
+        c12_one(ctx, k, [16usize, 49, 1000][i % 3], norm, &comp, &oligo, &model::canon_index(k), s);
+        n += 1;
+        ctx.rep.nontrivial += 1;
+    }
     for (i, &len) in crate::iters::THRESHOLD_LENGTHS.iter().enumerate() {
         let s = crate::iters::long_input(len, 90 + i as u64);
         // even and odd k (reverse-complement palindromes exist for even k only)
@@ -1503,6 +1564,16 @@ pub fn c12(ctx: &mut Ctx) {
     }
     ctx.lap("c12.boundary_prefixes");
     for (tag, recs) in &sets {
+        if tag.starts_with("odd-then-same") {
+            // a handful of settings only: k 3 (sparse columns), one thread (so that one worker sees every record) and four
+            for (threads, norm) in [(1usize, false), (1, true), (4, false)] {
+                if sh.mine() && !ctx.monitor() {
+                    c12_file(ctx, recs, 3, 16, norm, threads, 4 << 30, tag);
+                    nf += 1;
+                }
+            }
+            continue;
+        }
         if *tag == "twenty-thousand" || *tag == "fixed-rows" || *tag == "near-one" {
             continue;
         }
